@@ -171,9 +171,14 @@ def run(ctx, idx):
     con = "%s::relative-path" % pp.key
     ok = False
     why = "relative paths are not joined to the working directory"
+    # the working name of the path: the raw parameter, or the local the string-cleaned value is bound to
+    names = {val}
+    for n in own_nodes(pp.node):
+        if isinstance(n, ast.Assign) and len(n.targets) == 1 and isinstance(n.targets[0], ast.Name) and isinstance(n.value, ast.Call) and K.is_super_call(n.value, "clean"):
+            names.add(n.targets[0].id)
     for j in joins:
         a = j.ast.args
-        if len(a) == 2 and K.src(a[0]).endswith(".working_dir") and isinstance(a[1], ast.Name) and a[1].id == val:
+        if len(a) == 2 and K.src(a[0]).endswith(".working_dir") and isinstance(a[1], ast.Name) and a[1].id in names:
             ok = True
             why = "join(working_dir, value), directory first"
         elif len(a) == 2 and K.src(a[1]).endswith(".working_dir"):
@@ -193,8 +198,11 @@ def run(ctx, idx):
             ok = False
             why = "the join can run with working_dir = None"
         # the joined value must be what is returned / checked for existence
-        stores = [s for s in c.find("store") if s.meta.get("name") == val and s.meta.get("value") is not None and any(j.ast is s.meta["value"] for j in joins)]
-        if ok and not stores:
+        stores = [s for s in c.find("store") if s.meta.get("name") in names and s.meta.get("value") is not None and any(j.ast is s.meta["value"] for j in joins)]
+        rets = [r for r in c.find("return") if isinstance(r.ast.value, ast.Name)]
+        rd = c.reaching_defs()
+        flows = bool(stores) and bool(rets) and all(any(s in rd.get(r, {}).get(r.ast.value.id, ()) for s in stores) for r in rets)
+        if ok and not flows:
             ok = False
             why = "the joined path is not what the method goes on to check and return"
     ctx.ob("C20.e", con, K.rel(pp), pp.node.lineno, ok, why)
